@@ -8,7 +8,7 @@ from p_c06 import model, gen_cases, hs_run, replay  # noqa: F401
 
 def run(ctx):
     thorough = ctx.tier == "thorough"
-    mc = model(ctx, ["SkipHash", "SkipInner", "SkipFingerprint", "DevPanicOnBadAnswerHash"])
+    mc = model(ctx, ["SkipHash", "SkipInner", "SkipFingerprint", "DevPanicOnBadAnswerHash", "DevFingerprintCheckedOnce"])
     _, lies = gen_cases(ctx)
     rng = random.Random(ctx.seed + 7)
     scs = []
@@ -27,6 +27,19 @@ def run(ctx):
             sid += 1
             scs.append(S.mk(sid, "lie", "handshake-lie", steps, fresh=True,
                             hs={"corner": "", "lz": 0, "lie": {"Step": l["step"], "Field": l["field"], "How": l["how"], "Bit": b}}, seed=ctx.seed * 100 + sid))
+    # an exchange that got past some of its steps and was abandoned, then a second attempt on the same client object in which the
+    # server lies in another way (Handshake!Again with any lie): every check is made again, whatever the first attempt established
+    firsts = [("dhParams", "kind", "fail"), ("dhGen", "new_nonce_hash", "flip"), ("dhInner", "nonce", "flip"), ("dhGen", "kind", "retry")]
+    seconds = [("resPQ", "fingerprints", "several"), ("resPQ", "fingerprints", "none"), ("resPQ", "nonce", "flip"), ("dhParams", "answer_hash", "flip"),
+               ("dhGen", "new_nonce_hash", "flip2"), ("dhInner", "server_nonce", "fresh")]
+    for i, f in enumerate(firsts):
+        for j, g in enumerate(seconds):
+            if not thorough and (i + j) % 2 == 1:
+                continue
+            sid += 1
+            scs.append(S.mk(sid, "lie-then-lie", "handshake-lie", steps, fresh=True, seed=ctx.seed * 100 + sid,
+                            hs={"corner": "", "lz": 0, "retry": True, "lie": {"Step": f[0], "Field": f[1], "How": f[2], "Bit": rng.randrange(64)},
+                                "lie2": {"Step": g[0], "Field": g[1], "How": g[2], "Bit": rng.randrange(64)}}))
     nev, verdicts = hs_run(ctx, scs, "c07")
     C.write_evidence(ctx, "model_checking", {
         "states": mc.distinct, "transitions": mc.generated, "traces_validated_against_impl": len(scs),
